@@ -43,6 +43,11 @@ enum Place {
     OwnWithOrigin(String),
     /// the root name
     Root,
+    /// sub.<affix+signer key> / sub.<signer key+affix>: the last label merely *contains* the
+    /// signer's key (kinds 0,1: prefix, 2: suffix, 3: first char dropped) - in no key zone
+    OwnAffixed(u8, String),
+    /// same near-miss built from another key
+    ForeignAffixed(usize, u8, String),
 }
 
 #[derive(Clone, Debug, Serialize, Deserialize)]
@@ -123,8 +128,36 @@ fn owner(place: &Place, signer: usize, keys: &[Key]) -> Labels {
             n.extend(labels_of(ORIGIN));
         }
         Place::Root => n = vec![],
+        Place::OwnAffixed(kind, s) => {
+            n = labels_of(s);
+            n.push(affixed(&z(signer), *kind));
+        }
+        Place::ForeignAffixed(k, kind, s) => {
+            n = labels_of(s);
+            n.push(affixed(&z(other(*k)), *kind));
+        }
     }
     n
+}
+
+fn affixed(zone: &[u8], kind: u8) -> Vec<u8> {
+    let mut l = Vec::new();
+    match kind % 4 {
+        0 => {
+            l.push(b'x');
+            l.extend_from_slice(zone);
+        }
+        1 => {
+            l.extend_from_slice(b"abcd1234");
+            l.extend_from_slice(zone);
+        }
+        2 => {
+            l.extend_from_slice(zone);
+            l.push(b'x');
+        }
+        _ => l.extend_from_slice(&zone[1..]),
+    }
+    l
 }
 
 fn data_for(rtype: u16, uid: u32, signer: usize, keys: &[Key]) -> Data {
@@ -189,7 +222,11 @@ fn gen_world(rng: &mut Rng, nsteps: usize) -> World {
                 12 => Place::SignerUnderOther(k, sub),
                 13 => Place::OtherUnderSigner(k, sub),
                 14 => Place::OwnWithOrigin(sub),
-                _ => Place::Root,
+                _ => match rng.below(4) {
+                    0 => Place::Root,
+                    1 => Place::ForeignAffixed(k, rng.below(4) as u8, sub),
+                    _ => Place::OwnAffixed(rng.below(4) as u8, sub),
+                },
             };
             recs.push(RecSpec { place, rtype: *rng.pick(&TYPES), ttl: *rng.pick(&[0u32, 1, 30, 30, 300, 86400]), uid });
         }
